@@ -3,7 +3,7 @@
    The algorithm models (zp_add, zp_sub, zp_mul, ...) are the statement-by-statement transcriptions in C10_Model.v
    of the private helpers of the field classes; the spec_* functions are exact arithmetic on Z. *)
 From Coq Require Import ZArith List Znumtheory.
-Require Import C10_Model C10_Proofs.
+Require Import C10_Model C10_Proofs C10_Proofs2.
 Local Open Scope Z_scope.
 
 (* every binary operation on reduced operands equals the exact result reduced, for every modulus below 2^32
@@ -114,13 +114,25 @@ Print Assumptions C10_small_partial_inverse_unrepaired_refuted.
 
 (* Full statements not (yet) proved in Coq; they are evaluated on every generated input by the correspondence run
    (the oracle prints MODELDIFF when an algorithm model leaves the specification):
-   - composite characteristics are refused by the table construction;
-   - the extended-Euclid inverse of Zp_field_element / the small multi-fields is an inverse;
    - mfs_pinv / mf_pinv satisfy spec_pinv_ok for every x and every Q dividing the product (Chinese remainders). *)
-Definition C10_composite_refused_full : Prop :=
-  forall p, 1 < p < 65536 -> ~ prime p -> zp_set_characteristic p = false.
-Definition C10_egcd_inverse_full : Prop :=
-  forall p x, prime p -> p < 2147483648 -> 0 < x < p -> spec_is_inverse p x (egcd_inverse x p) = true.
+(* a characteristic that is not a prime greater than 1 is refused (the table loop throws when inv * i reaches p for
+   the smallest divisor i), and every prime below 2^16 is accepted *)
+Theorem C10_composite_refused : forall p, 1 < p < 65536 -> ~ prime p -> zp_set_characteristic p = false.
+Proof. exact composite_refused. Qed.
+Print Assumptions C10_composite_refused.
+Theorem C10_prime_accepted : forall p, prime p -> p < 65536 -> zp_set_characteristic p = true.
+Proof. exact prime_accepted. Qed.
+Print Assumptions C10_prime_accepted.
+Theorem C10_cohomology_composite_refused : forall p, ~ prime p -> fz_init p = false.
+Proof. exact fz_composite_refused. Qed.
+Print Assumptions C10_cohomology_composite_refused.
+(* the extended-Euclid inverse of Zp_field_element<p> and of the small multi-fields is an inverse, for every prime below
+   2^31 (the loop is modelled with fuel 100; the proof shows it is never exhausted: the product of the two operands
+   halves at every step) *)
+Theorem C10_egcd_inverse_exact : forall p x, prime p -> p < 2147483648 -> 0 < x < p ->
+  spec_is_inverse p x (egcd_inverse x p) = true.
+Proof. exact egcd_inverse_correct. Qed.
+Print Assumptions C10_egcd_inverse_exact.
 Definition C10_partial_inverse_full : Prop :=
   forall lo hi x Q, let ps := primes_between lo hi in
   ps <> nil -> 0 <= x < product ps -> (Q | product ps) -> 0 < Q ->
